@@ -311,15 +311,14 @@ def wrap_case(ctx, g, rng):
 
 
 def phase_case(ctx, g, rng):
+    """one object, a HISTORY of 1..4 calls: between calls the requested phase, the explicit reference epoch (tables
+    without a stored one) or the P / M0 columns (re-assigned through __setitem__) change, get_orbit may be called;
+    every call is judged on its own against the table as it is at that moment"""
+    import copy as _copy
     import astropy.units as u
-    from astropy.time import Time
     d = gen_table(rng, n=int(rng.choice([1, 1, 2, 7, int(rng.integers(1, 60))])))
-    mode = str(rng.choice(["t0", "phase"], p=[0.3, 0.7]))
-    punit = str(rng.choice(["rad", "deg"]))
-    pturn = 360.0 if punit == "deg" else 2 * math.pi
-    phase = 0.0 if mode == "t0" else float(rng.choice([rng.uniform(-2, 3) * pturn, pturn / 2, pturn, -pturn / 4, 0.0]))
+    d = _copy.deepcopy(d)
     ref_in_table = d["t_ref"] is not None
-    tref = d["t_ref"] if ref_in_table else 50000.0 + float(rng.integers(0, 40000)) / 4.0
     scalar_row = bool(rng.random() < 0.25)
     s = build(d)
     n = d["n"]
@@ -328,6 +327,46 @@ def phase_case(ctx, g, rng):
         r = int(rng.integers(0, n))
         s = s[r]
         rows = [r]
+    nsteps = 1 if rng.random() < 0.45 else int(rng.integers(2, 5))
+    tref = d["t_ref"] if ref_in_table else 50000.0 + float(rng.integers(0, 40000)) / 4.0
+    history = []
+    for step in range(nsteps):
+        if step > 0:
+            acts = ["phase"] + ([] if ref_in_table else ["tref", "tref"]) + ([] if scalar_row else ["M0", "P"])
+            if ref_in_table and col(d, "K") is not None:
+                acts.append("orbit")
+            act = str(rng.choice(acts))
+            if act == "tref":
+                tref = 50000.0 + float(rng.integers(0, 40000)) / 4.0
+            elif act in ("M0", "P"):
+                c = col(d, act)
+                if act == "M0":
+                    c["unit"] = str(rng.choice(["rad", "deg"]))
+                    turn = 360.0 if c["unit"] == "deg" else 2 * math.pi
+                    c["vals"] = [float(v) for v in rng.uniform(-1.5, 2.5, n) * turn]
+                else:
+                    c["unit"] = str(rng.choice(["d", "yr", "h"]))
+                    c["vals"] = [float(v) for v in 10 ** rng.uniform(-1, 3, n)]
+                c["dtype"] = "f8"
+                s[act] = np.array(c["vals"], dtype="f8") * u.Unit(c["unit"])
+            elif act == "orbit":
+                s.get_orbit(int(rows[0]) if not scalar_row else None)
+            history.append(act)
+            ctx.count(f"phase:history:{act}")
+        ok = phase_once(ctx, g, rng, s, d, rows, scalar_row, ref_in_table, tref, list(history))
+        if not ok:
+            return
+    if nsteps > 1:
+        ctx.count("phase:history>=2")
+
+
+def phase_once(ctx, g, rng, s, d, rows, scalar_row, ref_in_table, tref, history):
+    import astropy.units as u
+    from astropy.time import Time
+    mode = str(rng.choice(["t0", "phase"], p=[0.3, 0.7]))
+    punit = str(rng.choice(["rad", "deg"]))
+    pturn = 360.0 if punit == "deg" else 2 * math.pi
+    phase = 0.0 if mode == "t0" else float(rng.choice([rng.uniform(-2, 3) * pturn, pturn / 2, pturn, -pturn / 4, 0.0]))
     kw = {} if ref_in_table else dict(t_ref=Time(tref, format="mjd", scale="tcb"))
     if mode == "t0":
         t = s.get_t0(**kw)
@@ -351,7 +390,7 @@ def phase_case(ctx, g, rng):
     ctx.evaluated(rel, (g["kind"], g["index"]) if nontriv else None,
                   sample=dict(P=Pv[:3], P_unit=cP["unit"], M0=Mv[:3], M0_unit=cM["unit"], phase=phase, phase_unit=punit))
     inp = dict(d, phase=phase, phase_unit=punit, mode=mode, t_ref_used=tref, t_ref_in_table=ref_in_table,
-               rows=rows if scalar_row else None)
+               rows=rows if scalar_row else None, earlier_calls_on_this_object=history)
     # returned times as exact offsets from the reference epoch (double-double)
     tr = Time(tref, format="mjd", scale="tcb")
     tt = t.tcb
@@ -383,15 +422,16 @@ def phase_case(ctx, g, rng):
                       dict(dt_days=[float(Fraction(x) - F(tref)) for x in m["t"]]),
                       "mean anomaly 2pi (t - t_ref)/P - M0 at the returned time must equal the requested phase (mod 2pi): " + why,
                       tags=dict(op="get_t0" if mode == "t0" else "get_time_with_phase", P_unit=cP["unit"], M0_unit=cM["unit"],
-                                phase_unit=punit))
-        return
+                                phase_unit=punit, history=len(history)))
+        return False
     for i, r in enumerate(rows):
         Pd = F(Pv[i]) * SCALES[cP["unit"]]
         tol = (Fraction(8 * EPS) * (abs(F(Mv[i]) / F(mturn)) + abs(F(phase) / F(pturn))) + Fraction(4 * EPS)) * Pd + Fraction(4 * EPS)
         if abs(dts[i] - (Fraction(m["t"][i]) - F(tref))) > tol:
             ctx.mismatch(rel, g, inp, dict(dt=float(dts[i]), row=r), dict(dt=float(Fraction(m["t"][i]) - F(tref))),
                          "returned time differs from t_ref + P(M0+phi)/2pi although its mean anomaly equals the phase mod 2pi")
-            break
+            return False
+    return True
 
 
 # ------------------------------------------------------------------------------------------------
@@ -761,6 +801,11 @@ def post(ctx):
     ctx.require("get_time_with_phase", c["phase:phase"], 80)
     ctx.require("t_ref passed as argument", c["phase:tref_argument"], 15)
     ctx.require("single-row samples", c["phase:single_row"], 20)
+    ctx.require("several calls on one object", c["phase:history>=2"], 40)
+    ctx.require("explicit reference epoch changed between calls on one object", c["phase:history:tref"], 5)
+    ctx.require("M0 column re-assigned between calls", c["phase:history:M0"], 8)
+    ctx.require("P column re-assigned between calls", c["phase:history:P"], 8)
+    ctx.require("get_orbit called between calls", c["phase:history:orbit"], 5)
     for un in ("d", "yr", "h"):
         ctx.require(f"period in {un}", c[f"phase:P_{un}"], 20)
     for un in ("rad", "deg"):
